@@ -893,8 +893,10 @@ def gen_case(rng, nitems, nobj=None, maxstr=300, dangling=0.04, values=0.2, mode
             r = rng.random()
             if r < 0.2:
                 body.append((rng.choice(["op", "sp"]), l))           # self reference
-            elif r < 0.35 and pending and depth < 4:
-                body.append(obj(pending.pop(), depth + 1))            # nested ArchiveObject
+            elif r < 0.35 and pending and depth < 4 and (poly_scripted or cls[pending[-1]] != b"Listener"):
+                # nested ArchiveObject (C11: not of a real Listener - the flag byte of Listener::Archive is followed by
+                # the model for top-level records only, the record reader below the value reader cannot call it)
+                body.append(obj(pending.pop(), depth + 1))
             else:
                 body.append(plain_item())
         return (kind, l, cls[l], body)
